@@ -171,6 +171,9 @@ pub struct CheckDef {
     pub probes: &'static [&'static str],
     /// number of cases of the quick tier
     pub quick_cases: u64,
+    /// top-level scenario keys the shrinker must leave alone (the oracle derives its expectation
+    /// from the case stream for them, not from the scenario)
+    pub no_shrink: &'static [&'static str],
 }
 
 pub fn registry() -> Vec<CheckDef> {
